@@ -30,6 +30,7 @@ CONSTANTS NPreps,      \* number of P-Rep candidates p1 .. pN (in ascending addr
           Rates,       \* possible commission rates (1/10000)
           MaxBase,     \* number of base votes
           MaxEv,       \* number of events in the term
+          Terms,       \* number of consecutive terms of a scenario (votes, statuses and I-Scores carry over)
           Record       \* keep the history (generator) or not (exhaustive checking)
 
 PrepSeq == SubSeq(<<"p1", "p2", "p3", "p4", "p5", "p6">>, 1, NPreps)
@@ -47,7 +48,7 @@ VARIABLES phase,   \* "base" | "term" | "done"
           pubkey,  \* [Preps -> BOOLEAN]
           \* PRepInfo as the code keeps it
           known,   \* [Preps -> BOOLEAN]     in PRepInfo.preps
-          status,  \* [Preps -> {"enable", "disabled"}]
+          status,  \* [Preps -> {"enable", "disabled", "nextterm"}]
           dlg, bnd,\* [Preps -> Nat]         delegated / bonded
           power,   \* [Preps -> Nat]
           rank,    \* [Preps -> Nat]         0-based; 0 for P-Reps added after Sort
@@ -60,10 +61,12 @@ VARIABLES phase,   \* "base" | "term" | "done"
           touched,      \* [Voters -> SUBSET Preps]    keys present in Voter.accumulatedVotes
           \* block-by-block sums (definition of "accumulated")
           sumV, sumVoted, sumPower,
-          res,     \* results of Calculate
+          res,     \* results of Calculate (of the current term)
+          term,    \* number of the current term (1..Terms)
+          iscore,  \* [Preps \cup Voters -> Nat]  I-Score credited so far (all terms)
           hist
 vars == <<phase, off, nbase, nev, rate, pubkey, known, status, dlg, bnd, power, rank, ranked, accV, accP,
-          baseD, baseB, curD, curB, AV, touched, sumV, sumVoted, sumPower, res, hist>>
+          baseD, baseB, curD, curB, AV, touched, sumV, sumVoted, sumPower, res, term, iscore, hist>>
 
 Min(a, b) == IF a < b THEN a ELSE b
 RECURSIVE SumSeq(_, _, _)
@@ -98,6 +101,7 @@ Init == /\ phase = "base" /\ off = 0 /\ nbase = 0 /\ nev = 0
         /\ touched = [v \in Voters |-> {}]
         /\ sumV = ZeroVP /\ sumVoted = ZeroP /\ sumPower = ZeroP
         /\ res = [done |-> FALSE]
+        /\ term = 1 /\ iscore = [x \in Preps \cup Voters |-> 0]
         /\ hist = <<>>
 
 \* a vote held before the term starts (base snapshot)
@@ -112,30 +116,35 @@ BaseVote(v, t, p, a) ==
             /\ bnd' = [bnd EXCEPT ![p] = @ + a] /\ UNCHANGED <<baseD, curD, dlg>>
   /\ Log([op |-> "base", v |-> v, t |-> t, p |-> p, a |-> a])
   /\ UNCHANGED <<phase, off, nev, rate, pubkey, known, status, power, rank, ranked, accV, accP, AV, touched,
-                 sumV, sumVoted, sumPower, res>>
+                 sumV, sumVoted, sumPower, res, term, iscore>>
 
 \* positions 1..n of the sorted rank list
 Sorted(s) == \A i \in 1..(Len(s) - 1) : Bigger(s[i], s[i + 1])
 (* iiss4Reward.loadPRepInfo: Add (power), Sort, InitAccumulated; Voter.ApplyVoting of the base votes *)
+InBase == {p \in Preps : known[p]}          \* the P-Reps with a Voted record in the base snapshot
+BaseRec == [prep |-> [p \in Preps |-> [known |-> known[p], status |-> status[p], dlg |-> dlg[p], bnd |-> bnd[p],
+                                        rate |-> rate[p], pubkey |-> pubkey[p]]],
+            voter |-> [v \in Voters |-> [d |-> baseD[v], b |-> baseB[v]]]]
 StartTerm ==
   /\ phase = "base"
   /\ phase' = "term" /\ off' = 0
   /\ power' = [p \in Preps |-> IF known[p] THEN CalcPower(bnd[p], Voted(p)) ELSE 0]
-  /\ \E s \in [1..BaseCount -> BasePreps] :
-       /\ \A p \in BasePreps : \E i \in 1..BaseCount : s[i] = p
+  /\ LET n == Cardinality(InBase) IN
+     \E s \in [1..n -> InBase] :
+       /\ \A p \in InBase : \E i \in 1..n : s[i] = p
        /\ Sorted(s)
        /\ ranked' = s
-       /\ rank' = [p \in Preps |-> IF p \in BasePreps THEN (CHOOSE i \in 1..BaseCount : s[i] = p) - 1 ELSE 0]
-  /\ accV' = [p \in Preps |-> IF p \in BasePreps /\ rank'[p] < Elected THEN Voted(p) * T ELSE 0]
-  /\ accP' = [p \in Preps |-> IF p \in BasePreps /\ rank'[p] < Elected THEN power'[p] * T ELSE 0]
+       /\ rank' = [p \in Preps |-> IF p \in InBase THEN (CHOOSE i \in 1..n : s[i] = p) - 1 ELSE 0]
+  /\ accV' = [p \in Preps |-> IF p \in InBase /\ rank'[p] < Elected THEN Voted(p) * T ELSE 0]
+  /\ accP' = [p \in Preps |-> IF p \in InBase /\ rank'[p] < Elected THEN power'[p] * T ELSE 0]
   /\ AV' = [v \in Voters |-> [p \in Preps |-> (baseD[v][p] + baseB[v][p]) * T]]
   /\ touched' = [v \in Voters |-> {p \in Preps : baseD[v][p] + baseB[v][p] > 0}]
   \* block 0 is counted with the votes and the power in force at its start
   /\ sumV' = [v \in Voters |-> [p \in Preps |-> curD[v][p] + curB[v][p]]]
   /\ sumVoted' = [p \in Preps |-> Voted(p)]
   /\ sumPower' = power'
-  /\ Log([op |-> "start", rate |-> rate, ranked |-> ranked', power |-> power'])
-  /\ UNCHANGED <<nbase, nev, rate, pubkey, known, status, dlg, bnd, baseD, baseB, curD, curB, res>>
+  /\ Log([op |-> "start", term |-> term, base |-> BaseRec, ranked |-> ranked', power |-> power'])
+  /\ UNCHANGED <<nbase, nev, rate, pubkey, known, status, dlg, bnd, baseD, baseB, curD, curB, res, term, iscore>>
 
 (* one vote event of the term: processEvents -> PRepInfo.ApplyVote + VoteEvents.AddEvent
    (later Voter.ApplyEvent); dlt may be negative *)
@@ -157,7 +166,7 @@ Event(v, t, p, dlt) ==
   /\ IF t = "d" THEN curD' = [curD EXCEPT ![v][p] = @ + dlt] /\ UNCHANGED curB
                 ELSE curB' = [curB EXCEPT ![v][p] = @ + dlt] /\ UNCHANGED curD
   /\ Log([op |-> "vote", v |-> v, t |-> t, p |-> p, a |-> dlt, off |-> off])
-  /\ UNCHANGED <<phase, off, nbase, rate, pubkey, status, rank, ranked, baseD, baseB, sumV, sumVoted, sumPower, res>>
+  /\ UNCHANGED <<phase, off, nbase, rate, pubkey, status, rank, ranked, baseD, baseB, sumV, sumVoted, sumPower, res, term, iscore>>
 
 (* EventEnable: PRepInfo.SetStatus *)
 SetStatus(p, s) ==
@@ -167,7 +176,7 @@ SetStatus(p, s) ==
   /\ known' = [known EXCEPT ![p] = TRUE]
   /\ Log([op |-> "status", p |-> p, s |-> s, off |-> off])
   /\ UNCHANGED <<phase, off, nbase, rate, pubkey, dlg, bnd, power, rank, ranked, accV, accP, baseD, baseB, curD,
-                 curB, AV, touched, sumV, sumVoted, sumPower, res>>
+                 curB, AV, touched, sumV, sumVoted, sumPower, res, term, iscore>>
 
 NextBlock ==
   /\ phase = "term" /\ off < Limit
@@ -177,7 +186,7 @@ NextBlock ==
   /\ sumPower' = [p \in Preps |-> sumPower[p] + power[p]]
   /\ Log([op |-> "block", off |-> off'])
   /\ UNCHANGED <<phase, nbase, nev, rate, pubkey, known, status, dlg, bnd, power, rank, ranked, accV, accP, baseD,
-                 baseB, curD, curB, AV, touched, res>>
+                 baseB, curD, curB, AV, touched, res, term, iscore>>
 
 FundToPeriodIScore(reward) == (reward * T * IScoreICXRatio) \div MonthBlock
 NElected == Min(Elected, Len(ranked))
@@ -199,7 +208,9 @@ Share(v, p) == IF p \in touched[v] /\ Rewardable(p) /\ accV[p] # 0 THEN (AV[v][p
 Calculate ==
   /\ phase = "term" /\ off = Limit /\ Elected > 0
   /\ phase' = "done"
-  /\ res' = [done |-> TRUE, treward |-> TReward, minwage |-> MinWage, totalap |-> TotalAP,
+  /\ iscore' = [x \in Preps \cup Voters |->
+                 iscore[x] + (IF x \in Preps THEN Commission(x) + Wage(x) ELSE SumP([p \in Preps |-> Share(x, p)]))]
+  /\ res' = [done |-> TRUE, term |-> term, treward |-> TReward, minwage |-> MinWage, totalap |-> TotalAP,
              prep |-> [p \in Preps |-> [known |-> known[p], rewardable |-> Rewardable(p), accv |-> accV[p], accp |-> accP[p],
                                         commission |-> Commission(p), vreward |-> VoterReward(p), wage |-> Wage(p),
                                         reward |-> Commission(p) + Wage(p)]],
@@ -207,13 +218,35 @@ Calculate ==
                                           reward |-> SumP([p \in Preps |-> Share(v, p)])]]]
   /\ Log([op |-> "calc", res |-> res'])
   /\ UNCHANGED <<off, nbase, nev, rate, pubkey, known, status, dlg, bnd, power, rank, ranked, accV, accP, baseD, baseB,
-                 curD, curB, AV, touched, sumV, sumVoted, sumPower>>
+                 curD, curB, AV, touched, sumV, sumVoted, sumPower, term>>
+
+(* the next term: the calculator's result is the next base (PRepInfo.UpdateVoted / PRep.ToVoted,
+   VoteEvents.UpdateVoting): votes and statuses carry over, "enable at next term" becomes enabled *)
+NextTerm ==
+  /\ phase = "done" /\ term < Terms
+  /\ term' = term + 1 /\ phase' = "base" /\ off' = 0 /\ nbase' = MaxBase /\ nev' = 0
+  \* icreward State.SetVoted drops a record that is not enabled and has no votes and no commission rate (Voted.IsEmpty)
+  /\ LET st(p) == IF status[p] = "nextterm" THEN "enable" ELSE status[p]
+         kept(p) == known[p] /\ ~(st(p) # "enable" /\ dlg[p] = 0 /\ bnd[p] = 0 /\ rate[p] = 0)
+     IN /\ known' = [p \in Preps |-> kept(p)]
+        /\ status' = [p \in Preps |-> IF kept(p) THEN st(p) ELSE "disabled"]
+        /\ pubkey' = [p \in Preps |-> kept(p)]
+  /\ baseD' = curD /\ baseB' = curB
+  /\ power' = ZeroP /\ rank' = ZeroP /\ ranked' = <<>> /\ accV' = ZeroP /\ accP' = ZeroP
+  /\ AV' = ZeroVP /\ touched' = [v \in Voters |-> {}]
+  /\ sumV' = ZeroVP /\ sumVoted' = ZeroP /\ sumPower' = ZeroP
+  /\ res' = [done |-> FALSE]
+  /\ Log([op |-> "next", term |-> term'])
+  \* loadPRepInfo derives "has all public keys" from the base snapshot; with no DSA required (mask 0) every
+  \* P-Rep with a Voted record qualifies, also those that PRepInfo.SetStatus added without key in the last term
+  /\ UNCHANGED <<rate, dlg, bnd, curD, curB, iscore>>
 
 Next == \/ \E v \in Voters, t \in {"d", "b"}, p \in Preps, a \in Amts : BaseVote(v, t, p, a)
         \/ StartTerm
         \/ \E v \in Voters, t \in {"d", "b"}, p \in Preps, a \in Amts : Event(v, t, p, a)
         \/ \E v \in Voters, t \in {"d", "b"}, p \in Preps, a \in Amts : Event(v, t, p, -a)
-        \/ \E p \in Preps, s \in {"enable", "disabled"} : SetStatus(p, s)
+        \/ \E p \in Preps, s \in {"enable", "disabled", "nextterm"} : SetStatus(p, s)
+        \/ NextTerm
         \/ NextBlock
         \/ Calculate
 Spec == Init /\ [][Next]_vars
@@ -221,6 +254,9 @@ Spec == Init /\ [][Next]_vars
 ----------------------------------------------------------------------------
 (* C35 *)
 Done == res.done
+\* over all terms so far no more than the terms' funds was credited
+CumulativeBudget == SumP([p \in Preps |-> iscore[p]]) + SumVt([v \in Voters |-> iscore[v]])
+                      <= (IF Done THEN term ELSE term - 1) * (TReward + MinWage)
 \* the I-Score credited to P-Reps and voters never exceeds the term's funds
 PRepBudget == Done => SumP([p \in Preps |-> res.prep[p].commission + res.prep[p].vreward]) <= res.treward
 WageBudget == Done => SumP([p \in Preps |-> res.prep[p].wage]) <= res.minwage
@@ -242,7 +278,11 @@ AccumulatedIsBlockSum ==
     /\ \A v \in Voters, p \in Preps : AV[v][p] = sumV[v][p] + (curD[v][p] + curB[v][p]) * (Limit - off)
     /\ \A p \in ElectedSet : /\ accV[p] = sumVoted[p] + Voted(p) * (Limit - off)
                              /\ accP[p] = sumPower[p] + power[p] * (Limit - off)
-NonNegative == \A p \in Preps : accV[p] >= 0 /\ accP[p] >= 0 /\ power[p] >= 0 /\ power[p] <= Voted(p)
+\* (a registered P-Rep outside the elected ranks is not initialised by InitAccumulated: its accumulated values are
+\* only the sum of the term's events, may be negative and are never used)
+RankedSet == {ranked[i] : i \in 1..Len(ranked)}
+NonNegative == \A p \in Preps : /\ power[p] >= 0 /\ power[p] <= Voted(p)
+                                 /\ (p \in ElectedSet \/ p \notin RankedSet) => (accV[p] >= 0 /\ accP[p] >= 0 /\ accP[p] <= accV[p])
 \* Voter.CalculateReward never divides by zero
 NoDivZero == phase = "term" => \A v \in Voters, p \in Preps : (p \in touched[v] /\ Rewardable(p)) => accV[p] > 0
 =============================================================================
